@@ -479,7 +479,8 @@ func metaScenario(k int) {
 		switch kd {
 		case "oversize-advert":
 			cfg.MetaLie = ""
-			cfg.MetadataSize = maxMeta + 1 + r.Intn(100000)
+			// just above the limit, far above it, and values whose low 32 bits look like a small size
+			cfg.MetadataSize = []int{maxMeta + 1 + r.Intn(100000), maxMeta + 1, 1<<31 - 1, 1 << 31, 1<<32 - 1, 1<<32 + 1 + r.Intn(maxMeta), 1<<32 + len(info), 1<<40 + len(info), 1<<62 + len(info)}[r.Intn(9)]
 		case "wrong-size-advert":
 			cfg.MetaLie = ""
 			cfg.MetadataSize = len(info) + []int{-1, 1, 16384, -len(info) + 1}[r.Intn(4)]
